@@ -39,8 +39,8 @@ def UpperCamel (s : Str) : Prop :=
 
 /-- typeshare's dispatch, re-expressed over serde's rule type -/
 def byRule (U : UnicodeOps) (s : Str) : Option Rule → Outcome Str
-  | some .lower => .ok (U.lowerStr s)
-  | some .upper => .ok (U.upperStr s)
+  | some .lower => .ok (toAsciiLower s)
+  | some .upper => .ok (toAsciiUpper s)
   | some .pascal => .ok (toPascal s)
   | some .camel => .ok (toCamel s)
   | some .snake => .ok (toSnake U s)
@@ -98,11 +98,8 @@ theorem C16_field (U : UnicodeOps) (hU : U.AsciiCorrect) (r : Str) (rule : Rule)
   | none => simp only [byRule, applyField]; exact agrees_ok _ _ rfl
   | lower =>
     simp only [byRule, applyField]
-    apply agrees_ok
-    rw [lowerStr_ascii U hU s hascii, toAsciiLower_id s hlow]
-  | upper =>
-    simp only [byRule, applyField]
-    exact agrees_ok _ _ (upperStr_ascii U hU s hascii)
+    exact agrees_ok _ _ (toAsciiLower_id s hlow)
+  | upper => simp only [byRule, applyField]; exact agrees_ok _ _ rfl
   | pascal => simp only [byRule, applyField]; exact agrees_ok _ _ hpascal
   | camel => simp only [byRule, applyField, toCamel]; exact lowerFirst_agrees _ _ hpascal
   | snake => simp only [byRule, applyField]; exact agrees_ok _ _ hsnake
@@ -119,12 +116,6 @@ theorem C16_variant (U : UnicodeOps) (hU : U.AsciiCorrect) (r : Str) (rule : Rul
     Agree (renameAllToCase U s (some r)) (applyVariant U rule s) := by
   rw [rename_by_rule, hr]
   obtain ⟨c, rest, rfl, hc, hrest, hshape⟩ := hs
-  have hascii : ∀ x ∈ c :: rest, x.toNat < 128 := by
-    intro x hx
-    simp only [List.mem_cons] at hx
-    rcases hx with rfl | hx
-    · exact upper_ascii _ hc
-    · exact alnum_ascii x (hrest x hx)
   -- when the all-caps flag is set, the tail consists of digits only
   have hflag : (toAsciiUpper (c :: rest) == c :: rest) = true → ∀ x ∈ rest, isAsciiDigit x = true := by
     intro hf
@@ -149,10 +140,8 @@ theorem C16_variant (U : UnicodeOps) (hU : U.AsciiCorrect) (r : Str) (rule : Rul
     rw [hU.upper x (digit_ascii x hd)]; exact digit_notUpper x hd
   cases rule with
   | none => simp only [byRule, applyVariant]; exact agrees_ok _ _ rfl
-  | lower =>
-    simp only [byRule, applyVariant]; exact agrees_ok _ _ (lowerStr_ascii U hU _ hascii)
-  | upper =>
-    simp only [byRule, applyVariant]; exact agrees_ok _ _ (upperStr_ascii U hU _ hascii)
+  | lower => simp only [byRule, applyVariant]; exact agrees_ok _ _ rfl
+  | upper => simp only [byRule, applyVariant]; exact agrees_ok _ _ rfl
   | pascal => simp only [byRule, applyVariant]; exact agrees_ok _ _ hpascal
   | camel => simp only [byRule, applyVariant, toCamel]; exact lowerFirst_agrees _ _ hpascal
   | snake => simp only [byRule, applyVariant]; exact agrees_ok _ _ hsnake
@@ -162,6 +151,68 @@ theorem C16_variant (U : UnicodeOps) (hU : U.AsciiCorrect) (r : Str) (rule : Rul
   | screamingKebab =>
     simp only [byRule, applyVariant, toScreamingKebab, toKebab, hsnake]
     exact agrees_ok _ _ (upper_replace_comm _)
+
+/-! ### `lowercase` / `UPPERCASE` (repaired by the `fix:` commit e0753c7)
+
+Before the repair the two rules were the Unicode mappings `U.lowerStr` / `U.upperStr`, which agree
+with serde's ASCII mappings on ASCII names only (class `unicode-case-mapping`: variant `É` under
+`lowercase` gave `é`).  Now they are serde's own functions, so the agreement no longer depends on the
+Unicode tables `U` nor on the shape of the identifier. -/
+
+/-- **Variant position, `lowercase` and `UPPERCASE`: serde's name for every identifier whatsoever**
+(any Unicode tables, no `AsciiCorrect`, no `UpperCamel`). -/
+theorem C16_lower_upper_variant (U : UnicodeOps) (s : Str) :
+    renameAllToCase U s (some s%"lowercase") = applyVariant U .lower s ∧
+    renameAllToCase U s (some s%"UPPERCASE") = applyVariant U .upper s := by
+  constructor <;> (rw [rename_by_rule]; rfl)
+
+/-- **Field position, `UPPERCASE`: serde's key for every identifier whatsoever.** -/
+theorem C16_upper_field (U : UnicodeOps) (s : Str) :
+    renameAllToCase U s (some s%"UPPERCASE") = applyField .upper s := by
+  rw [rename_by_rule]; rfl
+
+/-- **Field position, `lowercase`, exactly**: serde leaves a field untouched under `lowercase`
+(`apply_to_field`: `None | LowerCase | SnakeCase => field.to_owned()`), typeshare lower-cases its
+ASCII capitals; so the two agree iff the field has no ASCII capital.  This is all that still
+separates the model from serde under these two rules (it is outside `FieldConv`, and of the same
+kind as `snake-splits-fields`: serde assumes fields are already snake_case). -/
+theorem C16_lower_field_exact (U : UnicodeOps) (s : Str) :
+    Agree (renameAllToCase U s (some s%"lowercase")) (applyField .lower s) ↔ toAsciiLower s = s := by
+  rw [rename_by_rule]
+  show Agree (Outcome.ok (toAsciiLower s)) (.ok s) ↔ _
+  constructor
+  · intro h
+    have := h s rfl
+    exact Outcome.ok.inj this
+  · intro h; exact agrees_ok _ _ h
+
+/-- the two rules no longer consult the Unicode tables at all -/
+theorem C16_lower_upper_unicode_free (U U' : UnicodeOps) (s r : Str)
+    (hr : r = s%"lowercase" ∨ r = s%"UPPERCASE") :
+    renameAllToCase U s (some r) = renameAllToCase U' s (some r) := by
+  rcases hr with rfl | rfl <;> (rw [rename_by_rule, rename_by_rule]; rfl)
+
+/-- a Unicode table that maps `É ↦ é`, `é ↦ É`, `ß ↦ SS` (what Rust `std` does) — not `ascii` -/
+def frenchU : UnicodeOps :=
+  { UnicodeOps.ascii with
+    isUpper := fun c => isAsciiUpper c || c == 'É'
+    isLower := fun c => isAsciiLower c || c == 'é' || c == 'ß'
+    toLower := fun c => if c == 'É' then ['é'] else [asciiLower c]
+    toUpper := fun c => if c == 'é' then ['É'] else if c == 'ß' then ['S', 'S'] else [asciiUpper c] }
+
+/-- the repaired witnesses of `unicode-case-mapping`, as positive regression examples: under a
+Unicode table that does map the letters, typeshare now gives serde's names (before the repair:
+`é`, `ÉCLAIR`, `STRASSE`) -/
+example : renameAllToCase frenchU s%"É" (some s%"lowercase") = .ok s%"É" ∧
+    applyVariant frenchU .lower s%"É" = .ok s%"É" := by decide
+example : renameAllToCase frenchU s%"Éclair" (some s%"lowercase") = .ok s%"Éclair" ∧
+    renameAllToCase frenchU s%"éclair" (some s%"UPPERCASE") = .ok s%"éCLAIR" ∧
+    applyField .upper s%"éclair" = .ok s%"éCLAIR" := by decide
+example : renameAllToCase frenchU s%"straße" (some s%"UPPERCASE") = .ok s%"STRAßE" ∧
+    applyField .upper s%"straße" = .ok s%"STRAßE" ∧ frenchU.upperStr s%"straße" = s%"STRASSE" := by decide
+/-- the remaining difference under `lowercase`: a field with a capital (outside the convention) -/
+example : renameAllToCase .ascii s%"fooBar" (some s%"lowercase") = .ok s%"foobar" ∧
+    applyField .lower s%"fooBar" = .ok s%"fooBar" := by decide
 
 /-! ### non-vacuity and the known divergences as kernel-checked witnesses -/
 example : FieldConv s%"address_line1" := by unfold FieldConv; decide
